@@ -158,12 +158,16 @@ Proof.
   - case_guards Hs; try discriminate Hs; inversion Hs; subst; clear Hs; simpl; unfold cnt; simpl; auto.
 Qed.
 
+Lemma proto_cnt v wd s : reachable v wd (Ok s) -> cnt s.
+Proof.
+  intros H. change (Cnt (Ok s)). revert H.
+  apply reachable_invariant with (P := Cnt); [exact (cnt_init v wd) | exact (cnt_step v)].
+Qed.
+
 Lemma proto_closed_once v wd s :
   reachable v wd (Ok s) -> ni s <= 1 /\ nr s <= 1 /\ nw s <= 1.
 Proof.
-  intros H.
-  assert (Cnt (Ok s)) as (H1 & H2 & H3).
-  { revert H. apply reachable_invariant with (P := Cnt); [exact (cnt_init v wd) | exact (cnt_step v)]. }
+  intros H. destruct (proto_cnt _ _ _ H) as (H1 & H2 & H3).
   destruct (fi s), (fr s), (fw s); lia.
 Qed.
 
